@@ -101,6 +101,9 @@ func runC17(r *Report) {
 			if _, isC := ConstInt(bo.X); isC {
 				return
 			}
+			if limitOf(bo.X) != "" && limitOf(bo.Y) != "" {
+				return // two configured limits compared with each other (the smaller one applies): nothing is counted here
+			}
 			if l := limitOf(bo.Y); l != "" {
 				sites = append(sites, site{bo, l, bo.X, f})
 			} else if l := limitOf(bo.X); l != "" {
